@@ -100,6 +100,23 @@ def make_ghost_transport(T: set[tuple[int, int]], nrc_of: Callable[[int, int], i
     return GhostTransport()
 
 
+class WarpLoop(asyncio.SelectorEventLoop):
+    """Event loop with virtual time: a pending timer is reached by advancing the clock instead of
+    waiting (the scanner's reset path sleeps 0.5 s per probe in ECU.wait_for_ecu)."""
+
+    def __init__(self) -> None:
+        super().__init__()
+        self._vt = 0.0
+
+    def time(self) -> float:
+        return self._vt
+
+    def _run_once(self) -> None:  # type: ignore[override]
+        if not self._ready and self._scheduled:  # type: ignore[attr-defined]
+            self._vt = max(self._vt, self._scheduled[0]._when)  # type: ignore[attr-defined]
+        super()._run_once()  # type: ignore[misc]
+
+
 class FakeDB:
     def __init__(self) -> None:
         self.rows: list[tuple[int, list[int]]] = []
@@ -158,7 +175,8 @@ def run_scan(T: set[tuple[int, int]], depth: int, skip: set[int], thorough: bool
     problems: list[str] = []
     aborted = None
     try:
-        asyncio.run(scanner.main())
+        with asyncio.Runner(loop_factory=WarpLoop) as runner:
+            runner.run(scanner.main())
     except SystemExit as e:
         aborted = f"sys.exit({e.code})"
     except NonTermination as e:
@@ -258,7 +276,9 @@ def cases(tier: str, seed: int) -> list[tuple]:
 def run_chunk(args: tuple[str, int, int, int]) -> dict:
     tier, seed, k, n = args
     logging.disable(logging.CRITICAL)
-    cs = cases(tier, seed)[k::n]
+    allc = cases(tier, seed)
+    random.Random(20261001).shuffle(allc)  # balance the chunks; the family itself is unchanged
+    cs = allc[k::n]
     bad: list[dict] = []
     req = 0
     for c in cs:
@@ -312,7 +332,7 @@ def contract_unit(I: Interp) -> None:
 
 
 def build_units(tier: str, seed: int = 0) -> list[Unit]:
-    n = 16
+    n = 16 if tier == "quick" else 64
     us = [Unit("contracts/main-loop-shape", contract_unit)]
     bound = ("all relations on 3 sessions x depth 1..4 x skip x thorough (quick) / on 4 sessions "
              "x depth 1..5 (thorough, sub-sampled for skip>1, thorough>3, reset, NRC policies) "
